@@ -129,7 +129,8 @@ def gen_item(rnd, depth, used):
     if k < 0.25:
         c = rnd.choice([col("i0"), col("s0"), col("b0"), col("f0"), col("o"), col("o", "x"), col("o", "s"),
                         col("nokey"), ["col", ["o", "y", "z"], {"style": 1}]])
-        alias = rnd.choice(["", "", "k%d" % rnd.randint(0, 3)])
+        # an alias may well be the name of ANOTHER source column: items to its right still read the source row
+        alias = rnd.choice(["", "", "k%d" % rnd.randint(0, 3), rnd.choice(["i0", "i1", "s0", "f0", "b0", "nokey", "o"])])
         return item(c, alias)
     if k < 0.32:
         return item(rnd.choice([["str", "lit"], num(7), ["bool", True], ["null"]]), "k%d" % rnd.randint(0, 3))
@@ -143,7 +144,7 @@ def gen_item(rnd, depth, used):
         return item(["case", [[c, rnd.choice([col("s0"), ["str", "yes"], col("o")])]], rnd.choice([["str", "no"], col("i1")]),
                      {"else": True}], "k%d" % rnd.randint(0, 3))
     e, _ = gen_num_expr(rnd, depth)
-    return item(e, "k%d" % rnd.randint(0, 5))
+    return item(e, rnd.choice(["k%d" % rnd.randint(0, 5)] * 3 + ["i0", "i1", "f0", "nokey"]))
 
 
 def gen_case(rnd, depth):
